@@ -3,7 +3,7 @@
    nat stay the extracted Coq datatypes. *)
 Require Extraction.
 Require Import ExtrOcamlBasic.
-From Lace Require Import Driver DriverDbg DriverEdit.
+From Lace Require Import Driver DriverDbg DriverEdit DriverCmd.
 Extraction Language OCaml.
 Set Extraction Optimize.
-Extraction "../ocaml/gen/lace_model.ml" run_c02 run_c03 run_asm run_obj run_lc3 run_src run_dbg run_c20.
+Extraction "../ocaml/gen/lace_model.ml" run_c02 run_c03 run_asm run_obj run_lc3 run_src run_dbg run_c20 run_c14.
